@@ -191,7 +191,7 @@ def cc_case(draw, tier="quick"):
     what = draw(st.sampled_from(["secant_secant", "secant_secant", "tangent_secant", "tangent_tangent", "fourfold", "fourfold_exact", "circles", "with_degenerate"]))
     idx = list(draw(st.permutations(range(6)))[:4])
     return {"what": what, "n": draw(Z.params(9)), "idx": idx, "r": [draw(st.integers(-3, 3)), draw(st.sampled_from([1, 2, 3]))], "s": [draw(C.scale()), draw(C.scale())],
-            "c": [draw(C.ints(5)) for _ in range(6)], "swap": draw(st.booleans()), "n3": draw(st.one_of(st.none(), Z.params(9)))}
+            "c": [draw(C.ints(5)) for _ in range(6)], "swap": draw(st.booleans()), "n3": draw(st.one_of(st.none(), Z.params(9))), "third": draw(st.integers(0, 2))}
 
 
 def on_conic(M, p):
@@ -289,7 +289,11 @@ def run_cc(c):
         A, B = Conic(MA), Conic(MB)
         known = [np_f(p) for p in known_ex]
         repeated = what in ("tangent_secant", "tangent_tangent", "fourfold")
-    if c["swap"] and what != "with_degenerate":
+    if what == "with_degenerate" and c.get("third") in (1, 2):
+        # entries that are not exactly representable: the determinant of the line pair is a rounding residue, not 0.0
+        MB = MB * ([1.0, 1.0 / 3.0, 0.3][c["third"]])
+        B = Conic(MB)
+    if c["swap"]:
         A, B, MA, MB = B, A, MB, MA
     site = f"conic-conic:{c['what']}"
     r, f = call(site, A.intersect, B)
@@ -348,7 +352,7 @@ LAWS = [
         {"quick": 2000, "thorough": 40000}, "generated line/plane pairs, all sign patterns, parallel / at infinity / zeros, collections", shard=300),
     Law("not_reducible", lambda tier: nondeg_case(tier), run_nondeg, lambda c: True, lambda c: [c["what"], f"d{c['d']}"], {"quick": 800, "thorough": 15000},
         "non-degenerate quadrics are not degenerate; rank >= 3 quadrics of 3-space raise NotReducible", shard=300),
-    Law("conic_conic", lambda tier: cc_case(tier), run_cc, lambda c: c["what"] in ("tangent_secant", "tangent_tangent", "fourfold", "fourfold_exact"), lambda c: [c["what"]] + (["operands-reused-with-a-third-conic"] if c.get("n3") is not None and c["what"] != "with_degenerate" else []),
+    Law("conic_conic", lambda tier: cc_case(tier), run_cc, lambda c: c["what"] in ("tangent_secant", "tangent_tangent", "fourfold", "fourfold_exact"), lambda c: [c["what"]] + (["degenerate-receiver"] if c["what"] == "with_degenerate" and c["swap"] else []) + (["operands-reused-with-a-third-conic"] if c.get("n3") is not None and c["what"] != "with_degenerate" else []),
         {"quick": 1500, "thorough": 30000}, "conic.intersect(conic): <= 4 points on both conics, all exactly known common points present (incl. repeated roots)", shard=200,
-        mandatory=("fourfold", "fourfold_exact", "tangent_secant", "circles")),
+        mandatory=("fourfold", "fourfold_exact", "tangent_secant", "circles", "degenerate-receiver")),
 ]
